@@ -283,8 +283,8 @@ def run(ctx):
         kind = KINDS[(i // 2) % len(KINDS)]
         pos = ('first', 'middle', 'last')[(i // 7) % 3]
         case = mk_case(rng, tool, P, kind, pos)
-        if i % 25 == 24:
-            case['extra'] = [rng.choice(['--no_fast_check', '--enable_erasures', '--skip_missing'])]
+        if i % 12 == 11:
+            case['extra'] = [rng.choice(['--no_fast_check', '--enable_erasures', '--skip_missing', '--ignore_size', '--ignore_size'])]
         try:
             r = do_case(ctx, case)
         except Exception as e:      # harness trouble is reported as a disagreement, never silently dropped
@@ -308,8 +308,6 @@ def shrink(ctx, case):
 
 
 def classify(case, detail):
-    if isinstance(case, dict) and case.get('tool') == 'whole' and '--ignore_size' in case.get('extra', []):
-        return 'C08-whole-ignore-size-extrapolated-rate'
     if isinstance(case, dict) and case.get('kind') == 'clone' and isinstance(detail, dict):
         # open finding: an entry overwritten with the bytes of ANOTHER entry is a well-formed entry for that other file; the tool
         # processes that file a second time with the (cut) cloned track.  Narrow: every intact entry is still treated as with the
